@@ -135,11 +135,20 @@ func (br *xmpReader) readAttrValue(tag *Tag) (buf []byte, err error) {
 			if b := bytes.IndexByte(buf[2:], delim); b >= 0 && (b+4 < len(buf) || len(buf) < s) {
 				i := b + 2
 				d := i + 1
-				if d < len(buf) && buf[d] == '>' {
-					d++
+				// white space between the last attribute and the end of the tag
+				e := d
+				for e < len(buf) && isWhiteSpace(buf[e]) {
+					e++
+				}
+				if e+1 >= len(buf) && len(buf) == s {
+					s += maxTagValueSize
+					continue
+				}
+				if e < len(buf) && buf[e] == '>' {
+					d = e + 1
 					br.a = false
-				} else if d+1 < len(buf) && buf[d] == '/' && buf[d+1] == '>' {
-					d += 2
+				} else if e+1 < len(buf) && buf[e] == '/' && buf[e+1] == '>' {
+					d = e + 2
 					tag.t = soloTag
 					br.a = false
 				}
@@ -339,6 +348,11 @@ func (br *xmpReader) readSeqTags(xmp *XMP, parent Tag) (err error) {
 		}
 	}
 	return
+}
+
+// isWhiteSpace returns true for the white space characters of XML.
+func isWhiteSpace(c byte) bool {
+	return c == ' ' || c == '\n'
 }
 
 func parseAttrName(buf []byte) (xmpns.Property, int, error) {
